@@ -116,7 +116,11 @@ func runC12(c *fw.Case) {
 	if c.Tier == "thorough" {
 		e2eBudget = 6
 	}
-	for k := 0; k < c12PerCase; k++ {
+	perCase := c12PerCase
+	if c.Tier == "thorough" {
+		perCase *= 10
+	}
+	for k := 0; k < perCase; k++ {
 		t := c12Tuple{Prod: prod, Seg: seg, OutInit: outInit}
 		for i := r.Intn(4); i > 0; i-- {
 			t.StoreInits = append(t.StoreInits, val())
